@@ -11,8 +11,8 @@ const PSIG: [&str; 9] = ["a", " ", "=", ":", "#", "!", "\\", "é", "\n"];
 
 pub fn bounds(tier: Tier) -> Value {
     match tier {
-        Tier::Quick => json!({"text_len": 4, "hex_upto": 65535, "json_depth": 2, "json_width": 2, "props_key_len": 2, "props_value_len": 2}),
-        Tier::Thorough => json!({"text_len": 5, "hex_upto": 1048576, "json_depth": 3, "json_width": 2, "props_key_len": 2, "props_value_len": 3}),
+        Tier::Quick => json!({"text_len": 5, "hex_upto": 65535, "json_depth": 2, "json_width": 2, "props_key_len": 2, "props_value_len": 2}),
+        Tier::Thorough => json!({"text_len": 6, "hex_upto": 1048576, "json_depth": 3, "json_width": 2, "props_key_len": 2, "props_value_len": 3}),
     }
 }
 
@@ -274,7 +274,7 @@ pub fn worker(w: &mut Worker) {
         }};
     }
     // texts
-    let tl = tier.pick(4usize, 5usize);
+    let tl = tier.pick(5usize, 6usize);
     for t in Strings::new(&TSIG[..], 0, tl) {
         if !w.take() {
             continue;
